@@ -502,14 +502,14 @@ def verify_hyperparameters(lattice_sizes=None,
     ValueError: If num_terms < 1.
     ValueError: If len(monotonicities) does not match number of inputs.
   """
-  if lattice_sizes and lattice_sizes < 2:
+  if lattice_sizes is not None and lattice_sizes < 2:
     raise ValueError("Lattice size must be at least 2. Given: %s" %
                      lattice_sizes)
 
-  if units and units < 1:
+  if units is not None and units < 1:
     raise ValueError("Units must be at least 1. Given: %s" % units)
 
-  if num_terms and num_terms < 1:
+  if num_terms is not None and num_terms < 1:
     raise ValueError("Number of terms must be at least 1. Given: %s" %
                      num_terms)
 
